@@ -72,3 +72,48 @@ func VH_C29_concurrent_next(bound int) {
 	vAssert(vAnd(got[0] < got[1], got[2] < got[3]), "C29.concurrent_ids_ordered_per_goroutine")
 	vAssert(vRaces() == 0, "C29.concurrent_race_free")
 }
+
+// VH_C29_concurrent_wrap(bound): public API only (no field is named, so the
+// harness survives a change of the representation). A three-element range,
+// k sequential calls (k symbolic, 1..3), then two goroutines with two calls
+// each, pre-emptively interleaved while the sequence wraps. In every
+// interleaving the results must be explainable by some sequential order:
+// the first ID was consumed before, so ID min is handed out only directly
+// after a wrap and carries overflow = true, every other ID carries false;
+// the four IDs are the four cyclically consecutive ones.
+func VH_C29_concurrent_wrap(bound int) {
+	k := vNondetU16("k")
+	vAssume(vAnd(k >= 1, k <= 3))
+	s := NewIDSequence(1, 3)
+	for i := uint16(0); i < k; i++ {
+		s.Next()
+	}
+	var id [4]uint16
+	var ov [4]bool
+	d1, d2 := false, false
+	vPreempt(bound)
+	vGo(func() { id[0], ov[0] = s.Next(); id[1], ov[1] = s.Next(); d1 = true })
+	vGo(func() { id[2], ov[2] = s.Next(); id[3], ov[3] = s.Next(); d2 = true })
+	vRunUntilIdle()
+	vPreempt(0)
+	vAssume(vAnd(d1, d2))
+	vReach("C29.concurrent_wrap_done")
+	start := k%3 + 1 // the ID the first of the four calls must get
+	var cnt [3]int
+	for i := 0; i < 4; i++ {
+		in := vAnd(id[i] >= 1, id[i] <= 3)
+		vAssert(in, "C29.concurrent_wrap_in_range")
+		if in {
+			cnt[id[i]-1]++
+		}
+		vAssert(ov[i] == (id[i] == 1), "C29.concurrent_wrap_overflow_with_min_only")
+	}
+	for v := uint16(1); v <= 3; v++ {
+		want := 1
+		if v == start {
+			want = 2
+		}
+		vAssert(cnt[v-1] == want, "C29.concurrent_wrap_ids_cyclic")
+	}
+	vAssert(vRaces() == 0, "C29.concurrent_wrap_race_free")
+}
